@@ -53,6 +53,8 @@ def concretise(sc: Dict[str, Any], tmp: Path, h: int) -> Tuple[List[str], Dict[s
             factors[fail_at - 1] = "bad"
         rs: Dict[str, Any] = {"combine": "combinatorial", "max_runs": 100,
                               "blocks": [{"mode": "by_position", "context": {"factor": factors}}]}
+        if h % 3 == 0:
+            rs["dry_run"] = False          # the documented form spells the defaults out
         doc["run_space"] = rs
     else:
         ctx["factor"] = "bad" if fail_at else "2.0"
